@@ -9,9 +9,13 @@ Nothing of the driver is altered.  What is added, from the outside:
   replacement immediately and forever, an unbounded refusal would never quiesce).
 * handshake hold - OPTIONS/STARTUP answers of connections opened by a pool's replace/grow path can be kept back, so
   that a scenario decides when a replacement finishes connecting (e.g. after ``shutdown()``).
+* keyspace - a session keyspace makes every new pool connection do a blocking ``USE`` round trip, which the handshake hold covers too.
+* timer thread - optionally ``create_timer`` callbacks (client timeouts) run on a thread of their own instead of the reactor thread, as in
+  reactors whose timers are not served by the socket thread: a timeout and a response can then interleave at lock acquisitions.
 * ``NeverConvict`` - a user conviction policy that never marks the host down, which is what sends a failed
   connection down the pool's ``_replace`` path instead of the shutdown path.
 """
+import collections
 import random
 
 from sim import world as W
@@ -50,10 +54,14 @@ def owner_of(conn):
 
 
 class PoolWorld(object):
-    def __init__(self, seed, proto, K=None, thr=None, nodes=1, p_preempt=0.1, never_convict=False, v2cfg=None, chunking=False):
+    def __init__(self, seed, proto, K=None, thr=None, nodes=1, p_preempt=0.1, never_convict=False, v2cfg=None, chunking=False, keyspace=None,
+                 timer_thread=False):
         self.seed, self.proto, self.K, self.thr = seed, proto, K, thr
         self.never_convict = never_convict
         self.v2cfg = v2cfg
+        self.keyspace = keyspace
+        self.timer_thread = timer_thread
+        self.timer_q = collections.deque()
         random.seed(seed)            # the driver draws from the global generator: pin it per history
         self.ch = W.RandomChooser(random.Random(seed * 7 + 1), p_time=0.0, p_preempt=p_preempt)
         self.addrs = ['127.0.0.%d' % (i + 1) for i in range(nodes)]
@@ -96,6 +104,18 @@ class PoolWorld(object):
                     return real_set()
                 ev.set = set_and_note
 
+            @classmethod
+            def create_timer(cls, timeout, callback):
+                if not pw.timer_thread:
+                    return base.create_timer(timeout, callback)
+                # reactors whose timers do not run on the thread that reads the sockets: the callback is handed to a timer thread
+                box = []
+
+                def due():
+                    pw.timer_q.append((box[0], callback))
+                box.append(pw.world.add_timer(timeout, due, label='conn-timer'))
+                return box[0]
+
             def close(self):
                 if not self.is_closed:
                     pool = owner_of(self)
@@ -116,7 +136,8 @@ class PoolWorld(object):
 
     # ------------------------------------------------------------------ node side
     def behaviour(self, node, cstate, req):
-        if req['op'] in ('OPTIONS', 'STARTUP') and self.hold_handshake[0] and cstate.conn.sim_creator in ('pool-replace', 'pool-grow'):
+        setup = req['op'] in ('OPTIONS', 'STARTUP') or (req['op'] == 'QUERY' and req['query'].lstrip().upper().startswith('USE '))
+        if setup and self.hold_handshake[0] and cstate.conn.sim_creator in ('pool-replace', 'pool-grow'):
             r = node.default_reaction(cstate, req)
             self.held_handshakes.append((cstate, req, r))
             return ('silence',)
@@ -196,7 +217,18 @@ class PoolWorld(object):
             c.set_max_connections_per_host(HostDistance.LOCAL, mx)
             c.set_min_requests_per_connection(HostDistance.LOCAL, minr)
             c.set_max_requests_per_connection(HostDistance.LOCAL, maxr)
-        self.session = self.cluster.connect()
+        if self.timer_thread:
+            w, q = self.world, self.timer_q
+
+            def timer_loop():
+                while True:
+                    w.block(lambda: bool(q), None, 'timer-idle')
+                    while q:
+                        tm, cb = q.popleft()
+                        if not tm.cancelled:
+                            cb()
+            w.spawn(timer_loop, name='timers', kind='driver')
+        self.session = self.cluster.connect(self.keyspace) if self.keyspace else self.cluster.connect()
         self.rec = Recorder(self.world)
         # observe which code path asks for a replacement of which connection (Session.submit is looked up on the instance by the pools)
         import sys
